@@ -656,6 +656,7 @@ class Calendar(Dict, _calendar):
                 res = res.groupby(res.index.name).apply(aggregate)
             return res            
         t = self.adjust(date, adj)
+        days = int(days) if is_int(days) else days # a numpy integer of a small width overflows when added to the table index below
         if abs(days)>1:
             self._populate()
             return self.int2dt[self.dt2int[t] + days]
